@@ -34,6 +34,114 @@ impl Out {
   }
 }
 
+/// How often each alternative spelling of an option was used (printed into the evidence).
+pub static SPELL_SHORT: std::sync::atomic::AtomicU64 = std::sync::atomic::AtomicU64::new(0);
+pub static SPELL_EQUALS: std::sync::atomic::AtomicU64 = std::sync::atomic::AtomicU64::new(0);
+pub static SPELL_POSITIONAL: std::sync::atomic::AtomicU64 = std::sync::atomic::AtomicU64::new(0);
+pub static SPELL_PLAIN: std::sync::atomic::AtomicU64 = std::sync::atomic::AtomicU64::new(0);
+
+/// The same command line in another of the spellings the argument grammar documents: short flags
+/// (`-i X`), `--flag=value`, and the positional form of `--input`. Which spelling is used is a
+/// function of the arguments alone, so that a replay repeats it. Half of the command lines stay
+/// as they are. Meaning-preserving by the documented interface; nothing is respelled when a value
+/// begins with `-` or a flag's value is missing.
+pub fn respell(args: &[String]) -> Vec<String> {
+  use std::sync::atomic::Ordering::Relaxed;
+  let ti = match args.iter().position(|a| a == "torrent") {
+    Some(i) => i,
+    None => return args.to_vec(),
+  };
+  let sub = match args.get(ti + 1).map(|s| s.as_str()) {
+    Some(s @ ("create" | "verify" | "show" | "link")) => s,
+    _ => return args.to_vec(),
+  };
+  let mut h = crate::report::fnv_str(&args.join("\u{1}"));
+  let mut next = move || {
+    h ^= h << 13;
+    h ^= h >> 7;
+    h ^= h << 17;
+    h
+  };
+  if next() % 2 == 0 {
+    SPELL_PLAIN.fetch_add(1, Relaxed);
+    return args.to_vec();
+  }
+  let valued: &[(&str, &str)] = match sub {
+    "create" => &[("--allow", "-A"), ("--announce", "-a"), ("--announce-tier", "-t"), ("--comment", "-c"), ("--node", ""), ("--glob", "-g"), ("--input", "-i"),
+      ("--name", "-N"), ("--output", "-o"), ("--peer", ""), ("--piece-length", "-p"), ("--sort-by", ""), ("--source", "-s"), ("--update-url", "")],
+    "verify" => &[("--base-directory", "-b"), ("--content", "-c"), ("--input", "-i")],
+    "show" => &[("--input", "-i")],
+    _ => &[("--select-only", "-s"), ("--input", "-i"), ("--peer", "-p")],
+  };
+  let flags: &[(&str, &str)] = match sub {
+    "create" => &[("--dry-run", "-n"), ("--follow-symlinks", "-F"), ("--force", "-f"), ("--include-hidden", "-h"), ("--include-junk", "-j"), ("--md5", "-M"),
+      ("--private", "-P"), ("--show", "-S")],
+    "show" => &[("--json", "-j")],
+    _ => &[],
+  };
+  let mut out: Vec<String> = args[..ti + 2].to_vec();
+  let mut positional: Option<String> = None;
+  let mut i = ti + 2;
+  while i < args.len() {
+    let a = &args[i];
+    if let Some((long, short)) = valued.iter().find(|(l, _)| l == a) {
+      match args.get(i + 1) {
+        Some(v) if !v.starts_with('-') && !v.is_empty() => {
+          match next() % 4 {
+            0 if !short.is_empty() => {
+              SPELL_SHORT.fetch_add(1, Relaxed);
+              out.push(short.to_string());
+              out.push(v.clone());
+            }
+            1 => {
+              SPELL_EQUALS.fetch_add(1, Relaxed);
+              out.push(format!("{long}={v}"));
+            }
+            2 if *long == "--input" && positional.is_none() => {
+              SPELL_POSITIONAL.fetch_add(1, Relaxed);
+              positional = Some(v.clone());
+            }
+            _ => {
+              out.push(a.clone());
+              out.push(v.clone());
+            }
+          }
+          i += 2;
+          continue;
+        }
+        Some(v) => {
+          out.push(a.clone());
+          out.push(v.clone());
+          i += 2;
+          continue;
+        }
+        None => {
+          out.push(a.clone());
+          i += 1;
+          continue;
+        }
+      }
+    }
+    if let Some((_, short)) = flags.iter().find(|(l, _)| l == a) {
+      if next() % 2 == 0 {
+        SPELL_SHORT.fetch_add(1, Relaxed);
+        out.push(short.to_string());
+      } else {
+        out.push(a.clone());
+      }
+      i += 1;
+      continue;
+    }
+    out.push(a.clone());
+    i += 1;
+  }
+  if let Some(p) = positional {
+    // directly after the subcommand, ahead of every option (an option taking several values would swallow it)
+    out.insert(ti + 2, p);
+  }
+  out
+}
+
 pub struct Cmd<'a> {
   pub bin: &'a str,
   pub args: Vec<String>,
@@ -44,6 +152,8 @@ pub struct Cmd<'a> {
   pub env: Vec<(String, String)>,
   pub env_remove: Vec<String>,
   pub timeout: Duration,
+  /// pass the arguments exactly as given (no alternative spelling)
+  pub literal: bool,
 }
 
 impl<'a> Cmd<'a> {
@@ -57,7 +167,12 @@ impl<'a> Cmd<'a> {
       env: vec![],
       env_remove: vec![],
       timeout: Duration::from_secs(60),
+      literal: false,
     }
+  }
+  pub fn literal(mut self) -> Self {
+    self.literal = true;
+    self
   }
   pub fn args_owned(bin: &'a str, args: Vec<String>) -> Self {
     let mut c = Cmd::new(bin, &[]);
@@ -90,7 +205,8 @@ impl<'a> Cmd<'a> {
     let mut c = Command::new(self.bin);
     match &self.os_args {
       Some(a) => c.args(a),
-      None => c.args(&self.args),
+      None if self.literal || std::env::var_os("VERIF_LITERAL_ARGS").is_some() => c.args(&self.args),
+      None => c.args(respell(&self.args)),
     };
     if let Some(cwd) = &self.cwd {
       c.current_dir(cwd);
